@@ -90,6 +90,41 @@ PROPS["C16"] = dict(
     ],
 )
 
+VARS = ["varsval/c06_vars.go"]
+
+def c06(wrap, dev, flags, timeout=1800):
+    return spec("H-C06a[%d,%d,%d]" % (wrap, dev, flags), "./pkg/variablesvalidation", VARS, "VerifC06Validate", [wrap, dev, flags],
+                "variable type = one of 10 named types (Int, Float, String, Boolean, ID, enum, 3 input objects incl. oneOf, custom scalar) x first %d of 8 wrapper shapes up to [[T!]!]!; JSON value = canonical conforming value with at most %d deviations (absent, null, wrong kind, boundary number, enum letter (symbolic), list shape, unknown field) at any position; flags=%d (1: `= null` default, 2: content exposure disabled); pipeline = normalization (default extraction, list coercion, input default injection) then Validate" % (wrap, dev, flags),
+                ["accepted", "rejected"] if dev > 0 else ["accepted"], timeout=timeout)
+
+def c06reuse(wrap, dev):
+    return spec("H-C06c[%d,%d]" % (wrap, dev), "./pkg/variablesvalidation", VARS, "VerifC06Reuse", [wrap, dev],
+                "two consecutive requests on one validator: first over Int, second over Int or input object I, first %d wrapper shapes, <=%d deviations each; verdict and message equal a fresh validator's" % (wrap, dev),
+                ["first request rejected", "first request accepted"])
+
+PROPS["C06"] = dict(
+    title="Variable validation accepts exactly the coercible variable values",
+    level_text="bounded symbolic execution of the engine's variable pipeline (normalization's default extraction / list coercion / input default injection, then variablesvalidation) from go/ssa against an independent implementation of the spec's CoerceVariableValues written in the harness",
+    level_note="bounds: type shapes and deviation count as listed; leaf contents are representatives except the enum letter (symbolic); trusted base: gosym, z3, the harness oracle; astjson/jsonparser/gjson/sjson are interpreted as plain Go",
+    design_ref="DESIGN.md §4 C06",
+    assumptions=["go-arena: Alloc returns nil so the library falls back to make/new (documented nil-arena behaviour)"],
+    stubs=["fmt.Sprintf/Fprint: executed natively on concrete arguments"],
+    quick=[c06(8, 0, 0), c06(8, 1, 0), c06(8, 1, 1), c06(8, 1, 2), c06reuse(1, 1)],
+    thorough=[c06(8, 1, 0), c06(8, 1, 3), c06(4, 2, 0, 3000), c06reuse(2, 1)],
+)
+
+C04T = ["astvalidation/c04_types.go"]
+PROPS["C04"] = dict(
+    title="Operation validation accepts exactly the spec-valid operations",
+    level_text="PARTIAL: bounded symbolic execution of the variable-usage compatibility kernel (operationTypeSatisfiesDefinitionType) against the spec's IsVariableUsageAllowed/AreTypesCompatible on all well-formed type chains up to the stated depth",
+    level_note="partial claim: only the value/type arithmetic kernels listed in evidence are decided; structural rules are outside (DESIGN.md §4 C04); trusted base: gosym, z3",
+    design_ref="DESIGN.md §4 C04",
+    assumptions=["type chains are well formed (end at a named type, NonNull never wraps NonNull)"],
+    stubs=[],
+    quick=[spec("H-C04a[5]", "./pkg/astvalidation", C04T, "VerifC04VariableUsage", [5], "all pairs of well-formed type chains of depth <= 5 over 3 type names, hasDefault symbolic", ["allowed", "not allowed"])],
+    thorough=[spec("H-C04a[6]", "./pkg/astvalidation", C04T, "VerifC04VariableUsage", [6], "all pairs of well-formed type chains of depth <= 6 over 3 type names, hasDefault symbolic", ["allowed", "not allowed"])],
+)
+
 NOT_APPLICABLE = {
     "C20": "The gRPC datasource's data path runs on protoreflect/dynamicpb/protocompile (reflection, unsafe, generated descriptors); no SSA->SMT encoding of it is within reach of the engine built here, and the property is about exactly that path (DESIGN.md §5).",
 }
@@ -137,7 +172,7 @@ def main():
     json.dump(manifest, open(os.path.join(HERE, "MANIFEST.json"), "w"), indent=1)
     print("wrote checks.json, MANIFEST.json: claimed", sorted(PROPS), "n/a", [x["property_id"] for x in na])
 
-SOURCE_COMMITS = ["324f3d1", "b295fb9", "754a210", "92e89fe"]
+SOURCE_COMMITS = ["324f3d1", "b295fb9", "754a210", "92e89fe", "9534127", "6272168", "a4dc5cb", "edb33ca", "e937ba3"]
 
 if __name__ == "__main__":
     main()
